@@ -94,6 +94,9 @@ func newRxEnv(nEed, nEnv int) *rxEnv {
 }
 
 func (e *rxEnv) feedPacket(tok string) bool {
+	if strings.HasPrefix(tok, "W:") {
+		return true // the complete response, for the oracle of C14's channel-prefix cases only
+	}
 	if tok == "snd" {
 		// the client sends a message while the response is still arriving (a server may start answering
 		// before the last packet of the request has left): sending changes nothing on the receive side
